@@ -71,6 +71,13 @@ func (w *world) signer(atom string, p *plan) neotest.Signer {
 		return w.short["IRM-"]
 	case "IRA-":
 		return w.short["IRA-"]
+	case "V", "VA", "VC": // validators-only accounts (committee larger than the validator set)
+		return w.short[atom]
+	case "MN": // a committee member that is NOT a validator
+		if w.v > 0 {
+			return w.c.Members[w.n-1]
+		}
+		return nil
 	case "M0":
 		return w.c.Members[0]
 	case "IR0":
@@ -124,6 +131,9 @@ func (w *world) universe(p *plan) []string {
 	if w.n >= 2 { // the accounts one signature short of the documented ones
 		u = append(u, "C-", "A-", "IRM-", "IRA-")
 	}
+	if w.v > 0 {
+		u = append(u, "V", "VA", "VC", "MN")
+	}
 	for i := range p.keys {
 		u = append(u, fmt.Sprintf("K%d", i+1))
 	}
@@ -157,6 +167,12 @@ func (w *world) setsFor(p *plan) []sset {
 		add("irm-1", "IRM-")
 		add("ira-1", "IRA-")
 	}
+	if w.v > 0 {
+		add("validators", "V")
+		add("val-alpha", "VA")
+		add("val-cmt", "VC")
+		add("member-nv", "MN")
+	}
 	var ks []string
 	for i := range p.keys {
 		ks = append(ks, fmt.Sprintf("K%d", i+1))
@@ -175,20 +191,30 @@ func (w *world) setsFor(p *plan) []sset {
 		}
 	}
 	// bitmask evaluation of the requirement over the universe (atoms standing for the same account hold together)
-	nu := len(u)
+	// (atoms standing for the same account - e.g. A- and C for n = 6, V/VA/VC for 4 validators - are one bit)
 	idx := map[string]int{}
-	hash := make([]util.Uint160, nu)
-	for i, a := range u {
-		idx[a] = i
-		hash[i] = w.signer(a, p).ScriptHash()
-	}
-	same := make([]int, nu)
-	for i := range u {
-		for j := range u {
-			if hash[i] == hash[j] {
-				same[i] |= 1 << j
+	var hash []util.Uint160
+	var uu []string
+	for _, a := range u {
+		h := w.signer(a, p).ScriptHash()
+		k := -1
+		for j := range hash {
+			if hash[j] == h {
+				k = j
 			}
 		}
+		if k < 0 {
+			k = len(hash)
+			hash = append(hash, h)
+			uu = append(uu, a)
+		}
+		idx[a] = k
+	}
+	u = uu
+	nu := len(u)
+	same := make([]int, nu)
+	for i := range u {
+		same[i] = 1 << i
 	}
 	memo := make([]int8, 1<<nu)
 	metMask := func(mask int) bool {
@@ -554,7 +580,7 @@ func (w *world) execCell(contract, key string, set sset, fuzz string) string {
 	if fuzz != "" {
 		w.applyFuzz(m, p, fuzz)
 	}
-	cellID := fmt.Sprintf("%s.%s set=%s n=%d%s", contract, key, set, w.n, w.mode(contract))
+	cellID := fmt.Sprintf("%s.%s set=%s n=%s%s", contract, key, set, w.tag, w.mode(contract))
 	if fuzz != "" {
 		cellID += " fuzz=" + fuzz
 	}
@@ -644,7 +670,7 @@ func (w *world) execSafe(m meth, set sset) string {
 	}
 	p := &plan{args: args}
 	signers := w.signersOf(set.atoms, p)
-	cellID := fmt.Sprintf("%s.%s set=%s n=%d", m.contract, m.key, set, w.n)
+	cellID := fmt.Sprintf("%s.%s set=%s n=%s", m.contract, m.key, set, w.tag)
 	o := w.observe(w.buildTx(m, p, signers))
 	w.run.Count("safe." + m.contract + "." + m.key)
 	w.run.Count("set." + set.label)
@@ -717,9 +743,12 @@ func safeSets(w *world, m meth) []sset {
 			{"alpha", []string{"A"}}, {"ira", []string{"IRA"}}, {"irm", []string{"IRM"}}, {"singles", []string{"S", "M0", "IR0"}},
 			{"fs-multisigs", []string{"C", "A"}}, {"ir-multisigs", []string{"IRA", "IRM"}}, {"all", []string{"S", "M0", "IR0", "C", "A", "IRA", "IRM"}},
 			{"cmt-1", []string{"C-"}}, {"alpha-1", []string{"A-"}}, {"irm-1", []string{"IRM-"}}, {"ira-1", []string{"IRA-"}},
-			{"all-short", []string{"S", "M0", "IR0", "C-", "A-", "IRM-", "IRA-"}}}
+			{"all-short", []string{"S", "M0", "IR0", "C-", "A-", "IRM-", "IRA-"}},
+			{"validators", []string{"V"}}, {"val-alpha", []string{"VA"}}, {"val-cmt", []string{"VC"}}, {"member-nv", []string{"MN"}},
+			{"all-validators", []string{"S", "M0", "MN", "IR0", "V", "VA", "VC", "C-", "IRM-"}}}
 	}
-	return []sset{{"none", nil}, {"stranger", []string{"S"}}, {"alpha", []string{"A"}}, {"cmt", []string{"C"}}, {"all", []string{"S", "M0", "IR0", "C", "A", "IRA", "IRM"}}}
+	return []sset{{"none", nil}, {"stranger", []string{"S"}}, {"alpha", []string{"A"}}, {"cmt", []string{"C"}}, {"validators", []string{"V"}},
+		{"all", []string{"S", "M0", "IR0", "C", "A", "IRA", "IRM", "V", "MN"}}}
 }
 
 func uniqueSets(w *world, in []sset) []sset {
@@ -750,8 +779,8 @@ func (w *world) flush() {
 
 // ---------------------------------------------------------------- op lines
 
-func opLine(n int, contract, key string, set sset, fuzz string) string {
-	l := fmt.Sprintf("op n=%d %s %s set=%s", n, contract, key, set)
+func opLine(n string, contract, key string, set sset, fuzz string) string {
+	l := fmt.Sprintf("op n=%s %s %s set=%s", n, contract, key, set)
 	if fuzz != "" {
 		l += " fuzz=" + fuzz
 	}
@@ -759,7 +788,7 @@ func opLine(n int, contract, key string, set sset, fuzz string) string {
 }
 
 type opSpec struct {
-	n             int
+	n, v          int
 	contract, key string
 	set           sset
 	fuzz          string
@@ -770,11 +799,18 @@ func parseOp(line string) (opSpec, error) {
 	if len(f) < 5 || f[0] != "op" || !strings.HasPrefix(f[1], "n=") || !strings.HasPrefix(f[4], "set=") {
 		return opSpec{}, fmt.Errorf("bad op line %q", line)
 	}
-	n, err := strconv.Atoi(f[1][2:])
+	nv := strings.SplitN(f[1][2:], "/", 2) // n=<committee>[/<validators>]
+	n, err := strconv.Atoi(nv[0])
 	if err != nil {
 		return opSpec{}, err
 	}
-	o := opSpec{n: n, contract: f[2], key: f[3], set: parseSet(f[4][4:])}
+	v := 0
+	if len(nv) == 2 {
+		if v, err = strconv.Atoi(nv[1]); err != nil {
+			return opSpec{}, err
+		}
+	}
+	o := opSpec{n: n, v: v, contract: f[2], key: f[3], set: parseSet(f[4][4:])}
 	if len(f) > 5 && strings.HasPrefix(f[5], "fuzz=") {
 		o.fuzz = f[5][5:]
 	}
@@ -784,7 +820,7 @@ func parseOp(line string) (opSpec, error) {
 // ---------------------------------------------------------------- run
 
 type unit struct {
-	n        int
+	n, v     int
 	contract string
 	kind     string // cells | safe | fuzz
 }
@@ -793,13 +829,13 @@ func TestRun(t *testing.T) {
 	run := hx.Open(t)
 	defer run.Close()
 	defer cleanupScratch()
-	worlds := map[int]*world{}
-	get := func(n int) *world {
-		if w, ok := worlds[n]; ok {
+	worlds := map[[2]int]*world{}
+	get := func(n, v int) *world {
+		if w, ok := worlds[[2]int{n, v}]; ok {
 			return w
 		}
-		w := newWorld(t, run, n)
-		worlds[n] = w
+		w := newWorld(t, run, n, v)
+		worlds[[2]int{n, v}] = w
 		return w
 	}
 	if run.Mode == "replay" {
@@ -815,8 +851,8 @@ func TestRun(t *testing.T) {
 			if err != nil {
 				t.Fatal(err)
 			}
-			if w == nil || w.n != o.n {
-				w = newWorld(t, run, o.n)
+			if w == nil || w.n != o.n || w.v != o.v {
+				w = newWorld(t, run, o.n, o.v)
 			}
 			run.Op(l, w.execCell(o.contract, o.key, o.set, o.fuzz))
 			w.flush()
@@ -832,31 +868,40 @@ func TestRun(t *testing.T) {
 	}
 	contracts := append(append([]string{}, repoContracts...), "neofs-vote")
 	var units []unit
+	// 6/4: a committee of 6 of which only 4 are validators (neo.GetCommittee() != neo.GetNextBlockValidators()); the six
+	// committee keys give the same thresholds as the plain size 6, so quick runs the even size on this chain
 	if run.Tier != "thorough" {
-		units = append(units, unit{6, "*", "lite"})
-		units = append(units, unit{5, "*", "lite"}) // n ≡ 2 (mod 3): 2n/3+1 = 4 differs from floor(n/3)*2+1 = 3 = n/2+1
+		units = append(units, unit{6, 4, "*", "lite"})
+		units = append(units, unit{5, 0, "*", "lite"}) // n ≡ 2 (mod 3): 2n/3+1 = 4 differs from floor(n/3)*2+1 = 3 = n/2+1
 	}
 	for _, n := range sizes {
 		for _, c := range contracts {
-			units = append(units, unit{n, c, "cells"}, unit{n, c, "safe"}, unit{n, c, "fuzz"})
+			units = append(units, unit{n, 0, c, "cells"}, unit{n, 0, c, "safe"}, unit{n, 0, c, "fuzz"})
 		}
 	}
+	if run.Tier == "thorough" {
+		for _, c := range contracts {
+			units = append(units, unit{6, 4, c, "cells"}, unit{6, 4, c, "safe"})
+		}
+		units = append(units, unit{7, 5, "*", "lite"}) // 7/5: 2k/3+1 = 4 and k/2+1 = 3 over the validators are different accounts
+	}
 	lite := map[string]bool{"balance.mint": true, "netmap.addPeerIR": true, "netmap.newEpoch": true, "neofsid.addKey": true, "reputation.put": true,
-		"container.delete": true, "audit.put": true, "neofs.setConfig": true, "neofs.innerRingCandidateRemove": true, "nns.setPrice": true, "nns.registerTLD": true, "alphabet.vote": true}
+		"container.delete": true, "audit.put": true, "neofs.setConfig": true, "neofs.innerRingCandidateRemove": true, "nns.setPrice": true, "nns.registerTLD": true, "alphabet.vote": true, "alphabet.emit": true,
+		"container.put/4": true, "netmap.addPeer": true, "balance.transferX": true}
 	for ui, u := range units {
 		if ui%run.Shards != run.Shard {
 			continue
 		}
-		w := get(u.n)
+		w := get(u.n, u.v)
 		cs := []string{u.contract}
 		if u.contract == "*" {
 			cs = contracts
 		}
-		run.Case(fmt.Sprintf("n%d.%s.%s", u.n, u.contract, u.kind), "wf")
+		run.Case(fmt.Sprintf("n%s.%s.%s", strings.ReplaceAll(w.tag, "/", "v"), u.contract, u.kind), "wf")
 		var sample []string
 		for _, cname := range cs {
 			do := func(key string, set sset, fuzz string) {
-				l := opLine(u.n, cname, key, set, fuzz)
+				l := opLine(w.tag, cname, key, set, fuzz)
 				obs := w.execCell(cname, key, set, fuzz)
 				run.Op(l, obs)
 				w.flush()
